@@ -11,12 +11,12 @@ var keyPool = []string{
 	"\u00e9", "e\u0301", "\u00df", "\u20ac", "\u4e2d", "\u0080", "\u07ff", "\u0800", "\ud7ff", "\ue000", "\uffee", "\uffff",
 	"\U00010000", "\U0001f600", "\U0010ffff", "\u2028", "\u2029", "\u007f",
 	"\"", "\\", "/", "\n", "\t", "\r", "\b", "\f", "\u0000", "\u0001", "\u001f", "a\"b", "a\\b", "a\nb",
-	"<", ">", "&", "null", "true",
+	"<", ">", "&", "null", "true", "\ufffd", "a\ufffd",
 }
 
 var runeClasses = [][2]rune{
-	{0x20, 0x7e}, {0x20, 0x7e}, {0x00, 0x1f}, {0x7f, 0x9f}, {0xa0, 0x7ff}, {0x800, 0xd7ff}, {0xe000, 0xfffc},
-	{0x10000, 0x10ffff}, {0x2028, 0x2029}, {'"', '"'}, {'\\', '\\'}, {'/', '/'},
+	{0x20, 0x7e}, {0x20, 0x7e}, {0x00, 0x1f}, {0x7f, 0x9f}, {0xa0, 0x7ff}, {0x800, 0xd7ff}, {0xe000, 0xffff},
+	{0x10000, 0x10ffff}, {0x2028, 0x2029}, {'"', '"'}, {'\\', '\\'}, {'/', '/'}, {0xfffd, 0xfffd},
 }
 
 type gen struct {
@@ -25,11 +25,7 @@ type gen struct {
 
 func (g *gen) rune_() rune {
 	c := runeClasses[g.r.Intn(len(runeClasses))]
-	x := c[0] + rune(g.r.Intn(int(c[1]-c[0])+1))
-	if x == 0xFFFD {
-		x = 0xFFFC // U+FFFD has its own stream
-	}
-	return x
+	return c[0] + rune(g.r.Intn(int(c[1]-c[0])+1)) // U+FFFD is a character like any other
 }
 
 func (g *gen) str() string {
